@@ -3,9 +3,11 @@
 proof : coq/Properties_C16.v over coq/AutoRemoveModel.v / AutoRemoveProofs.v: for every re-entrant program
         (induction over the run) C16_counter_remover_exact, C16_conditional_remover_exact,
         C16_attached_wrapper_is_triggered, C16_helper_lifetime_irrelevant for the wrappers as generated from
-        the headers (INT_MIN < n), C16_specification_meets_the_statements (the oracle, every int count),
-        C16_guarded_counter_covers_every_count (the proposed repair, every int count) and the INT_MIN
-        witness C16_counter_int_min_refuted
+        the headers, for EVERY trigger count an int can hold (zero, negative, INT_MIN included);
+        C16_specification_meets_the_statements (the oracle), C16_guarded_counter_covers_every_count (the
+        repaired wrapper written out by hand) and the regression witness C16_counter_int_min_refuted (the
+        legacy wrapper `if(--data->triggerCount <= 0)` at INT_MIN: overflow, never removed; observation P9,
+        repaired in /repo by bebac6a)
 tie A : tools/leaves/autoremove.py -> coq/gen/GenAutoRemove.v (the decrement-and-test of the counter wrapper,
         the order removal / call in both wrappers, the condition's arguments, where the wrappers keep their
         state; both specialisations of both helpers, read from the instantiated operator())
@@ -15,10 +17,12 @@ tie B : harness/autoremove.cpp (real counterRemover / conditionalRemover over Ca
 break : a failing proof step or an untranslatable leaf switches the oracle to the extracted SPECIFICATION
         (`driver_autoremove spec`: the wrappers as C16 promises them, independent of the headers) and searches
         a failing input; a disagreement is shrunk and reported with model, spec and implementation traces.
-INT_MIN: corpus/autoremove/int_min.probe is run in a process of its own (the decrement is undefined
-        behaviour: UBSan stops the sanitised harness); reported through ctx.violation(..., key=
-        'counterremover-int-min'), i.e. as KNOWN-FINDING once /verif/known_findings.json lists that key.
-        DISABLED (PROBE_INT_MIN = False) until the lead has decided between a fix and a known-findings entry."""
+INT_MIN: regression check of the repaired defect P9.  INT_MIN counts are part of the generated stream and of the
+        corpus; in addition corpus/autoremove/int_min.probe is run in processes of its own on the sanitised
+        harness and on a plain -O0 build (with the legacy wrapper the decrement is undefined behaviour: UBSan
+        stops the sanitised harness, the plain build never removes the listener).  A misbehaviour is reported
+        through ctx.violation(..., key='counterremover-int-min') with the INT_MIN input as replay; on the
+        repaired tree the probe is silent."""
 import hashlib
 import os
 
@@ -27,7 +31,7 @@ import vlib
 
 FILES = ['Properties_C16.v']
 LEAF = 'GenAutoRemove.v'
-PROBE_INT_MIN = False
+PROBE_INT_MIN = True
 FINDING_KEY = 'counterremover-int-min'
 
 TRUSTED = [
@@ -47,14 +51,16 @@ VARIANTS_QUICK = [
     dict(name='autoremove_gxx17', src='autoremove.cpp'),
     dict(name='autoremove_clang11_single', src='autoremove.cpp', compiler='clang++', std='c++11', defs=['VH_POLICY=1']),
 ]
+PLAIN = dict(name='autoremove_plain_O0', src='autoremove.cpp', opt='-O0', san=False)     # INT_MIN probe only
 VARIANTS_THOROUGH = VARIANTS_QUICK + [
     dict(name='autoremove_gxx20_O2', src='autoremove.cpp', std='c++20', opt='-O2'),
     dict(name='autoremove_clang17_O2', src='autoremove.cpp', compiler='clang++', std='c++17', opt='-O2'),
 ]
 
 
-def build(ctx, specs):
-    res = vlib.build_many(ctx, specs)
+def build(ctx, specs, extra=()):
+    res = vlib.build_many(ctx, list(specs) + list(extra))
+    ctx.extra_builds = {e['name']: res[e['name']] for e in extra}
     bins = {}
     for s in specs:
         path, err = res[s['name']]
@@ -103,11 +109,11 @@ def prove_and_extract(ctx):
     return proof
 
 
-def probe_int_min(ctx, bins):
+def probe_int_min(ctx, bins, plain_build=None):
     """trigger count INT_MIN against the real code, in processes of its own"""
     path = os.path.join(vlib.ROOT, 'corpus', 'autoremove', 'int_min.probe')
     cases = ad.parse_case_text(open(path).read())
-    plain, err = vlib.build_cpp(ctx, 'autoremove_plain_O0', 'autoremove.cpp', opt='-O0', san=False)
+    plain, err = plain_build if plain_build else vlib.build_cpp(ctx, PLAIN['name'], 'autoremove.cpp', opt='-O0', san=False)
     san = sorted(bins.items())[0]
     for k, case in enumerate(cases):
         t = ad.case_text('0', case)
@@ -128,7 +134,7 @@ def probe_int_min(ctx, bins):
 
 def run(ctx):
     proof = prove_and_extract(ctx)
-    bins = build(ctx, VARIANTS_THOROUGH if ctx.tier == 'thorough' else VARIANTS_QUICK)
+    bins = build(ctx, VARIANTS_THOROUGH if ctx.tier == 'thorough' else VARIANTS_QUICK, extra=[PLAIN] if PROBE_INT_MIN else [])
     n = ctx.budget(3000, 40000)
     cases = corpus_cases()
     ncorpus = len(cases)
@@ -153,7 +159,7 @@ def run(ctx):
                       'proof obligation no longer checks: ' + '; '.join(proof['errors'])[:400], no_input=True)
     probe = None
     if PROBE_INT_MIN:
-        probe = probe_int_min(ctx, bins)
+        probe = probe_int_min(ctx, bins, ctx.extra_builds.get(PLAIN['name']))
     ctx.coverage.update({
         'obligations': proof['obligations'], 'discharged': proof['discharged'],
         'checker_cmd': 'make -C /verif/coq -f Makefile.coq Properties_C16.vo && coqc -Q . EV Properties_C16.v (Print Assumptions parsed)',
@@ -163,19 +169,19 @@ def run(ctx):
         'oracle': oracle,
         'evaluations': stats['compared'], 'distinct_nontrivial': stats['distinct_nontrivial'],
         'rule': 'cases from tools/autoremove_domain.py, targets list/disp/queue/hlist/hdisp in turn, temporary and kept helper objects, '
-                'counts from {INT_MIN+1,-3,-1,0,1,2,3,7} and others (+%d corpus cases), each run on the extracted Coq model (%s) and on the real '
+                'counts from {INT_MIN+1,-3,-1,0,1,2,3,7}, INT_MIN, INT_MAX and others (+%d corpus cases), each run on the extracted Coq model (%s) and on the real '
                 'helpers (%s); non-trivial = the case adds at least one wrapper and its trace has >=2 listener calls; distinct by case text'
                 % (ncorpus, oracle, sorted(bins)),
         'traces_validated_against_impl': stats['compared'], 'disagreements': stats['disagreements'],
         'model_error_discarded': stats['model_error_discarded'], 'model_vs_spec_differences': stats['model_vs_spec_differences'],
         'model_overflow_flagged': stats['model_overflow_flagged'],
         'generator_histogram': hist, 'case_features': stats['features'],
-        'int_min_probe': ('disabled (PROBE_INT_MIN = False)' if not PROBE_INT_MIN else ('misbehaviour observed' if probe else 'no misbehaviour')),
+        'int_min_probe': ('disabled (PROBE_INT_MIN = True)' if not PROBE_INT_MIN else ('misbehaviour observed' if probe else 'no misbehaviour')),
         'header_sha': {h: vlib.sha(os.path.join(vlib.REPO, 'include/eventpp/utilities', h)) for h in ('counterremover.h', 'conditionalremover.h')},
     })
     ctx.assumptions += [
         'single-threaded histories; listener and condition bodies are deterministic functions of their activation index; conditions do not run commands',
-        'INT_MIN < trigger count <= INT_MAX (INT_MIN: C16_counter_int_min_refuted, observation P9, probed separately)',
+        'trigger counts are ints (INT_MIN <= n <= INT_MAX; INT_MIN is covered since the repair of observation P9, C16_counter_int_min_refuted keeps the witness for the legacy wrapper)',
         'a handle is only used with the list/event it was issued for (other uses are rejected by the model and counted as discarded)',
         'the snapshot rule of the underlying listener lists (C02) and per-event routing (C04) are taken from their own properties',
         'on heterogeneous targets conditional entries are added for the first prototype only (the wrapper accepts any argument list, '
